@@ -127,26 +127,34 @@ Proof.
   - rewrite strto_int_unsigned by lia. f_equal. f_equal. lia.
 Qed.
 
-Theorem int64_roundtrip_lemma base0 wim z :
+(* integer parameters are asked for with re = NULL (want_re = false): both
+   reader variants (uf, zf) agree *)
+Theorem int64_roundtrip_gen uf zf base0 wim z :
   - two63 <= z < two63 ->
-  tok_to_num base0 wim (print_Z z) = Num (PInt z) None.
+  tok_to_num_gen uf zf base0 false wim (print_Z z) = Num (PInt z) None.
 Proof.
-  intros Hz. unfold tok_to_num, tok_part. rewrite strto_int_print.
+  intros Hz. unfold tok_to_num_gen, tok_part_gen. rewrite strto_int_print.
   assert (Ev : (if z <? 0 then - Z.abs z else Z.abs z) = z) by (destruct (Z.ltb_spec z 0); lia).
   rewrite Ev.
   replace ((- two63 <=? z) && (z <? two63)) with true
     by (symmetry; apply andb_true_iff; split; [apply Z.leb_le | apply Z.ltb_lt]; lia).
-  reflexivity.
+  rewrite andb_false_r. reflexivity.
 Qed.
+
+Theorem int64_roundtrip_lemma base0 wim z :
+  - two63 <= z < two63 ->
+  tok_to_num base0 false wim (print_Z z) = Num (PInt z) None.
+Proof. apply int64_roundtrip_gen. Qed.
 
 Theorem uint64_roundtrip_lemma base0 wim z :
   0 <= z < two64 ->
-  tok_to_num base0 wim (print_Z z) = Num (if z <? two63 then PInt z else PUInt z) None.
+  tok_to_num base0 false wim (print_Z z) = Num (if z <? two63 then PInt z else PUInt z) None.
 Proof.
-  intros Hz. unfold tok_to_num, tok_part. rewrite strto_int_print.
+  intros Hz. unfold tok_to_num, tok_to_num_gen, tok_part_gen. rewrite strto_int_print.
   replace (z <? 0) with false by (symmetry; apply Z.ltb_ge; lia).
   rewrite Z.abs_eq by lia.
   replace (- two63 <=? z) with true by (symmetry; apply Z.leb_le; unfold two63; lia).
+  rewrite andb_false_r.
   cbn [andb].
   destruct (z <? two63); cbn [negb andb at_term]; [reflexivity|].
   replace (z <? two64) with true by (symmetry; apply Z.ltb_lt; lia).
@@ -169,7 +177,7 @@ Definition as_signed (r : numres) : option Z :=
   end.
 
 Corollary unsigned_param_roundtrip base0 z :
-  0 <= z < two64 -> as_unsigned (tok_to_num base0 false (print_Z z)) = Some z.
+  0 <= z < two64 -> as_unsigned (tok_to_num base0 false false (print_Z z)) = Some z.
 Proof.
   intros Hz. rewrite uint64_roundtrip_lemma by assumption.
   destruct (Z.ltb_spec z two63); cbn [as_unsigned]; [|reflexivity].
@@ -177,5 +185,5 @@ Proof.
 Qed.
 
 Corollary signed_param_roundtrip base0 z :
-  - two63 <= z < two63 -> as_signed (tok_to_num base0 false (print_Z z)) = Some z.
+  - two63 <= z < two63 -> as_signed (tok_to_num base0 false false (print_Z z)) = Some z.
 Proof. intros Hz. rewrite int64_roundtrip_lemma by assumption. reflexivity. Qed.
